@@ -169,7 +169,7 @@ func Gen(t *rapid.T, o Opts) Spec {
 			k := rapid.IntRange(2, 5).Draw(t, "hk")
 			j := rapid.IntRange(0, 4).Draw(t, "hj")
 			var st string
-			hkind := rapid.IntRange(0, 9).Draw(t, "hkind")
+			hkind := rapid.IntRange(0, 13).Draw(t, "hkind")
 			if addOnly {
 				hkind = 3
 			}
@@ -198,6 +198,16 @@ func Gen(t *rapid.T, o Opts) Spec {
 				st = fmt.Sprintf("INSERT OR IGNORE INTO %s SELECT * FROM %s LIMIT %d", tn, tn, k*4)
 			case 8:
 				st = fmt.Sprintf("REINDEX")
+			case 10:
+				// objects in sqlite_master that are no tables or indexes
+				st = fmt.Sprintf("CREATE VIEW IF NOT EXISTS view%d AS SELECT * FROM %s", i, tn)
+			case 11:
+				st = fmt.Sprintf("CREATE TRIGGER IF NOT EXISTS trig%d AFTER INSERT ON %s BEGIN SELECT 1; END", i, tn)
+			case 12:
+				st = "ANALYZE" // makes the table sqlite_stat1
+			case 13:
+				// a table without a b-tree of its own (root page 0) and its shadow tables
+				st = fmt.Sprintf("CREATE VIRTUAL TABLE IF NOT EXISTS ft%d USING fts5(x)", i)
 			default:
 				st = fmt.Sprintf("UPDATE OR IGNORE %s SET %s = %s", tn, col, rapid.SampledFrom([]string{"NULL", "rowid", "'same'", col}).Draw(t, "hval2"))
 			}
